@@ -471,3 +471,6 @@ pub(crate) fn dump_types(ctx: &mut LowerCtx<'_>) -> Dump {
     }
     Dump { types }
 }
+
+/// C02: the raw bytes of a list's element buffer (`value::list::c02_api`)
+pub use crate::value::list::c02_api::element_bytes;
